@@ -349,6 +349,17 @@ class LifeHarness:
             w.drain()
         if s == "hello_sent":
             return w
+        if s == "disc_gave_up":
+            # hello sent, the device is slow; disconnect() was called, waited its 5 s for the connect phase, gave up (recording that
+            # as the connection's error) and has written a DisconnectRequest - while finish_connection() is still waiting
+            w.spawn("disc", w.conn.disconnect)
+            w.mon()
+            w.drain()
+            w.advance_next_timer()
+            w.drain()
+            if w.state() == "CLOSED" or not w.pending("disc"):
+                raise HarnessError(f"seed disc_gave_up: state {w.state()}, disc {w.results.get('disc')}")
+            return w
         data = w.dframe(w.hello_resp())
         if self.login:
             data += w.dframe(w.connect_resp())
